@@ -30,10 +30,16 @@ CLAIMED = {
     "C02": ("Lean theorems: non-objects get the format error; everything the generic gate or a command's validator "
             "refuses is answered with that code with no event at all in every world (rejected_no_contact); "
             "accepted requests are handed to the operation; udValue/keyId validators agree with the documented "
-            "zones; the counterexample F-02b is proved. Spec/C02.lean formalises docs/protocol*.md as Valid / "
+            "zones; for EVERY JSON object and both modes the refusals of the generic gate (missing command / "
+            "version, wrong version, unknown command) carry exactly the code Spec.C02.judge allows and satisfy the "
+            "oracle (gate_refusals_conform), and every version-1 command and the seven version-5 commands that "
+            "carry no transaction or block are classified as the documents prescribe - a validator refusal "
+            "carries an allowed code for a field the documents do not call valid and reaches no device, an "
+            "acceptance is not forbidden (simple_commands_conform; Proofs/Classify.lean, incl. parsePath => the "
+            "documents' path grammar); the counterexample F-02b is proved. Spec/C02.lean formalises docs/protocol*.md as Valid / "
             "Unspecified / Invalid zones per field; the oracle allowedObs is evaluated on the implementation's "
             "verdict (code, device contacted) for the full single-field mutation matrix.",
-            "partial: zone agreement for message/auth/brothers is decided by the exhaustive mutation matrix "
+            "partial: zone agreement for the version-5 message/auth/blocks/brothers fields is decided by the exhaustive mutation matrix "
             "(correspondence + oracle), not by a theorem; Spec/C02.lean is a trusted reading of the documents"),
     "C03": ("Lean theorems, full statement for the model of the whole manager (comm/server.py line handling, "
             "comm/protocol.py gate + validators, ledger/protocol*.py handlers, ledger/hsm2dongle.py operations): with "
